@@ -323,10 +323,6 @@ let run_adapt_case dk p1 p2 script =
                  | (_, Err e) -> Err e | (_, Panic) -> Panic) ((([], s0), codec_new), false) show_inbound script
   | _ -> "UNKNOWN-ADAPT-DECODER " ^ dk
 
-let run_case (fields : string list) : string =
-  match fields with
-  | "adapt" :: dk :: p1 :: p2 :: script :: _ -> run_adapt_case dk p1 p2 script
-
 (* ---------- Shadowsocks UDP (Model/SsUdp.v); case format: harness/src/t1_ssudp.rs ---------- *)
 let users_of s = if s = "none" then None else Some (List.map (fun u ->
   match String.split_on_char ':' u with [h; k] -> { u_hash = unhex h; u_key = unhex k } | _ -> failwith "user") (csv s))
@@ -397,6 +393,7 @@ let run_ssudp (fields : string list) : string =
 let run_case (fields : string list) : string =
   match fields with
   | "ssudp" :: rest -> run_ssudp rest
+  | "adapt" :: dk :: p1 :: p2 :: script :: _ -> run_adapt_case dk p1 p2 script
   | "vmbody" :: opt :: sec :: role :: sess :: ops :: _ -> run_vmbody opt sec role sess ops
   | "vmsrv" :: now :: users :: ops :: _ -> run_vmsrv now users ops
   | "vmcli" :: uuid :: opt :: sec :: cmd :: addr :: sess :: _now :: ops :: _ -> run_vmcli uuid opt sec cmd addr sess ops
